@@ -137,5 +137,23 @@ Definition codes_of_texts (l : list str) : list N :=
   concat (map (fun t => match params_of t with Some p => p | None => [] end) l).
 Definition style_of (l : list str) : tstate := sgr spec_class tdefault (codes_of_texts l).
 
+(* "well-formed SGR parameter groups": a numeric text whose codes form complete groups *)
+Definition wf_setting (t : str) : bool :=
+  match params_of t with
+  | Some p => negb (is_nil t) && complete spec_class p
+  | None => false
+  end.
+
+(* the single effect group a setting text addresses, when it is exactly one known group *)
+Definition single_effect (t : str) : option effect :=
+  match params_of t with
+  | Some p =>
+    match next_act spec_class p with
+    | (ASet e _, [], true) => Some e
+    | (AClr e, [], true) => Some e
+    | _ => None end
+  | None => None
+  end.
+
 (* observable form of a state, for the executable oracle *)
 Definition tstate_obs (t : tstate) : list (option (list N)) := map (fun e => norm_group e (t e)) all_effects.
